@@ -15,7 +15,7 @@ import numpy as np
 
 from harness import classify, gen, progcheck as PC, programs as P
 
-KNOWN = ("swv-layout-drift", "take-through-broadcast", "minmax-zero-size", "slice-through-generic-blockwise", "swv-nested-wrong-values", "broadcast-axis-zero-width-chunk")
+KNOWN = ("swv-layout-drift", "take-through-broadcast", "minmax-zero-size", "slice-through-generic-blockwise", "swv-nested-wrong-values", "broadcast-axis-zero-width-chunk", "eye:offset:first-row-chunk-shorter")
 def rechunked_variant(rng, prog):
     """Same program, different source chunkings (the property quantifies over chunkings)."""
     q = copy.deepcopy(prog)
